@@ -1,0 +1,18 @@
+//go:build verif
+// +build verif
+
+package kubernetes
+
+import "time"
+
+// VerifAgeNotReady lets the verification harness pretend that d has passed
+// since the StatefulSets that are waited for were first seen not ready
+// (the wait is 2m of wall-clock time in production).
+func (g *ReplicasManager) VerifAgeNotReady(d time.Duration) {
+	for name, t := range g.stsUpdatedTime {
+		if t != nil {
+			aged := t.Add(-d)
+			g.stsUpdatedTime[name] = &aged
+		}
+	}
+}
